@@ -146,12 +146,14 @@ func bigHelperTable(r *Run, rule string) {
 		"add": "(*math/big.Int).Add(addr:new, param:i, param:i2)", "sub": "(*math/big.Int).Sub(addr:new, param:i, param:i2)",
 		"mul": "(*math/big.Int).Mul(addr:new, param:i, param:i2)", "div": "(*math/big.Int).Quo(addr:new, param:i, param:i2)",
 		"mod": "(*math/big.Int).Mod(addr:new, param:i, param:i2)", "neg": "(*math/big.Int).Neg(addr:new, param:i)",
-		"equal": "((*math/big.Int).Cmp(param:i, param:i2) == 0)", "gt": "((*math/big.Int).Cmp(param:i, param:i2) == 1)",
-		"gte": "((*math/big.Int).Cmp(param:i, param:i2) >= 0)", "lt": "((*math/big.Int).Cmp(param:i, param:i2) == -1)",
+		"equal": "((*math/big.Int).Cmp(param:i, param:i2) == 0)", "gt": "((*math/big.Int).Cmp(param:i2, param:i) == -1)",
+		"gte": "((*math/big.Int).Cmp(param:i2, param:i) <= 0)", "lt": "((*math/big.Int).Cmp(param:i, param:i2) == -1)",
 		"lte": "((*math/big.Int).Cmp(param:i, param:i2) <= 0)",
 	}
+	// terms are canonical (a > b is spelled b < a, Cmp(a,b) == 1 is spelled Cmp(b,a) == -1); == -1 and < 0 are the same test
 	alt := map[string][]string{
-		"gt": {"((*math/big.Int).Cmp(param:i, param:i2) > 0)"}, "lt": {"((*math/big.Int).Cmp(param:i, param:i2) < 0)"},
+		"gt": {"((*math/big.Int).Cmp(param:i2, param:i) < 0)"},
+		"lt": {"((*math/big.Int).Cmp(param:i, param:i2) < 0)"},
 	}
 	for _, n := range []string{"add", "sub", "mul", "div", "mod", "neg", "equal", "gt", "gte", "lt", "lte"} {
 		f := r.fn("types." + n)
